@@ -182,11 +182,12 @@ def run_check(prop, tier, keep=False, only=None, jobs=16):
             print("scratch kept at", d)
 
     # ------------------------------------------------------------ verus units
-    import verus
-    for vu in cfg.get("verus_units", []):
+    import verus, syntactic
+    vjobs = [("verus", vu) for vu in cfg.get("verus_units", [])] + [("syn", x) for x in cfg.get("syntactic", [])]
+    for kind_, vu in vjobs:
         if only and not any(k == vu or k in vu for k in only.split(",")):
             continue
-        rep = verus.run_unit(vu)
+        rep = verus.run_unit(vu) if kind_ == "verus" else syntactic.CHECKS[vu]()
         verus_reports.append(rep)
         cmds.append(rep["cmd"])
         if rep["status"] == "undecided":
